@@ -335,7 +335,7 @@ func (interp *Interpreter) cfg(root *node, sc *scope, importPath, pkgName string
 		case commClause:
 			sc = sc.pushBloc()
 			defineLabels(sc, n)
-			if len(n.child) > 0 && n.child[0].action == aAssign {
+			if len(n.child) > 0 && n.child[0].kind == defineStmt {
 				ch := n.child[0].child[1].child[0]
 				var typ *itype
 				if typ, err = nodeType(interp, sc, ch); err != nil {
@@ -693,7 +693,12 @@ func (interp *Interpreter) cfg(root *node, sc *scope, importPath, pkgName string
 				return
 			}
 
-			wireChild(n)
+			if isCommRecvAssign(n) {
+				// The receive operation is performed by select.
+				wireChild(n, unaryExpr)
+			} else {
+				wireChild(n)
+			}
 			for i := 0; i < n.nleft; i++ {
 				dest, src := n.child[i], n.child[sbase+i]
 				updateSym := false
@@ -807,7 +812,7 @@ func (interp *Interpreter) cfg(root *node, sc *scope, importPath, pkgName string
 					if src.typ.untyped && !dest.typ.untyped {
 						src.typ = dest.typ
 					}
-				case src.action == aRecv:
+				case src.action == aRecv && !isCommRecvAssign(n):
 					// Assign by reading from a receiving channel.
 					n.gen = nop
 					src.findex = dest.findex // Set recv address to LHS.
@@ -1450,7 +1455,7 @@ func (interp *Interpreter) cfg(root *node, sc *scope, importPath, pkgName string
 			if len(n.child) == 0 {
 				return
 			}
-			if len(n.child) > 1 {
+			if len(n.child) > 1 && !isCommRecvAssign(n.child[0]) {
 				n.start = n.child[1].start // Skip chan operation, performed by select
 			}
 			n.lastChild().tnext = n.anc.anc // exit node is selectStmt
@@ -2290,7 +2295,7 @@ func (interp *Interpreter) cfg(root *node, sc *scope, importPath, pkgName string
 			case n.rval.IsValid():
 				n.gen = nop
 				n.findex = notInFrame
-			case n.anc.kind == assignStmt && n.anc.action == aAssign && n.anc.nright == 1:
+			case n.anc.kind == assignStmt && n.anc.action == aAssign && n.anc.nright == 1 && !isCommRecvAssign(n.anc):
 				dest := n.anc.child[childPos(n)-n.anc.nright]
 				if n.action != aRecv && dest.typ != nil && isInterface(dest.typ) && !isInterface(n.typ) {
 					// Keep the type of the operand and store the result in its own frame
@@ -2708,6 +2713,13 @@ func (n *node) isType(sc *scope) bool {
 		return ok && sym.kind == typeSym
 	}
 	return false
+}
+
+// isCommRecvAssign returns true if node n is the communication operation of a
+// select clause, assigning the received value to an existing operand: x = <-c.
+// Select performs the receive operation, then the assignment is executed.
+func isCommRecvAssign(n *node) bool {
+	return n.kind == assignStmt && n.anc.kind == commClause && n.anc.child[0] == n && n.lastChild().action == aRecv
 }
 
 // wireChild wires AST nodes for CFG in subtree.
